@@ -807,7 +807,12 @@ class C16(LiftProp):
                 grow = rng.choice([1, 2, 7, 1000, c["chains"][k]["ref"][1], c["chains"][k]["qry"][1]])
                 field = rng.choice([0, 0, 1, 2]) if j + 1 < len(bl) else 0
                 bl[j][field] = min(U64, bl[j][field] + max(1, grow))
-                c["kind"] = "overshoot"
+                if field == 0 and j + 1 < len(bl) and rng.random() < 0.5:
+                    # ... and the gaps behind the enlarged block "take the surplus back" modulo 2^64: every sum is right
+                    # again in wrapping arithmetic, and the block still runs past its extent (and possibly the contig)
+                    g = max(1, grow)
+                    bl[j][1] = (bl[j][1] - g) % (2 ** 64)
+                    bl[j][2] = (bl[j][2] - g) % (2 ** 64)
                 # ask about the far end of every contig too
                 for ch_ in c["chains"]:
                     for side in ("ref",):
@@ -1423,7 +1428,10 @@ def mutations(rng, chains_d):
         l2 = list(lines); del l2[term]
         yield ("terminating line removed chain%d" % ci, l2)
         for pos in sorted(set([data[0], term])):
-            for what, text in (("blank", ""), ("header", lines[hdr]), ("junk", "chain oops"), ("junk2", "7\t1")):
+            for what, text in (("blank", ""), ("header", lines[hdr]), ("junk", "chain oops"), ("junk2", "7\t1"),
+                               # lines other tools skip or tolerate; inside a section of a chain file they are junk
+                               ("comment", "#"), ("comment2", "##matrix=16 91 -114"), ("comment3", "#3\t1\t2"),
+                               ("blankish", " "), ("blankish2", "\t"), ("bom", "\ufeff"), ("semicolon", "; note")):
                 l2 = list(lines); l2.insert(pos, text)
                 yield ("%s inserted inside section chain%d" % (what, ci), l2)
         l2 = list(lines); l2.insert(hdr, "5")
@@ -2230,6 +2238,11 @@ class C13(Prop):
             if i != m:
                 ev.corr = "impl %r vs model %r" % (i[:300], m[:300])
             ev.tags.append(" ".join(i.split(" ")[:2]))
+            if i.startswith("panic") and not m.startswith("panic"):
+                # the harness prints every parsed value twice, with a print into a sink that is too small in between,
+                # and panics when the two texts differ (or the library's own Display panicked)
+                ev.judge = "parsing or printing %r panicked, or the printed text depends on what was printed before" % t
+                return ev
             if not i.startswith("ok"):
                 return ev
             canon, pr = i.rsplit(" print=", 1)
